@@ -418,7 +418,10 @@ Lemma scion_decode_view raw h pld rp : wf_bytes raw ->
       HP.raw_decode (pb2 ++ slack) = Ok (rp2, slack) ->
       HS.scion_decode (pre ++ pb2 ++ slack ++ pld) = Ok (set_path h (HP.PScion rp2), pld).
 Proof.
-  intros W. unfold HS.scion_decode. destruct (Nat.ltb (length raw) HS.cmn_hdr_len); [discriminate|].
+  intros W. unfold HS.scion_decode.
+  (* robust against [scion_decode] being an instance of a decoder generic in the path decoder *)
+  try match goal with |- context [?f HP.path_decode] => unfold f end.
+  destruct (Nat.ltb (length raw) HS.cmn_hdr_len); [discriminate|].
   do 7 inv_word. cbv zeta.
   set (dt := (n4 / 16) mod 16). set (st := n4 mod 16).
   destruct (Nat.ltb (length r) (HS.addr_hdr_len dt st)); [discriminate|].
@@ -518,7 +521,8 @@ Proof.
   intros W. unfold abstract_res.
   destruct (HS.scion_decode raw) as [[h pld]| |] eqn:Es; try discriminate.
   destruct (skip_exts (HS.s_nexthdr h) pld) as [[proto l4]| |] eqn:Ex; try discriminate.
-  destruct (HS.s_path h) as [|rp| | |] eqn:Epath; try discriminate.
+  destruct (HS.s_path h) eqn:Epath; try discriminate.
+  match type of Epath with _ = HP.PScion ?x => rename x into rp end.
   destruct (path_fields rp) as [[[rsv infos] hops]| |] eqn:Ef; try discriminate.
   intros Hp.
   assert (Ep : p = mk_record h pld (res_opt (l4_port qport proto l4)) rp rsv infos hops).
